@@ -9,7 +9,7 @@
    reproduces byte for byte. *)
 From Coq Require Import String NArith List Bool.
 From RC Require Import lib.Result model.Layout model.TrigTable model.RichCodec model.Str model.StrEditor model.Alloc
-  proofs.C04_proofs proofs.C04_readback proofs.C04_locations proofs.C04_cuwps proofs.C04_reload proofs.C04_reload_locs proofs.C04_switches proofs.C04_wavs model.ChkIo gen.GenConsts proofs.C07_triggers proofs.C07_slots model.RichIo proofs.C08_proofs proofs.C09_proofs proofs.Save_strings proofs.Save_refs gen.GenTrig spec.SpecTrig gen.GenFlags gen.GenConsts.
+  proofs.C04_proofs proofs.C04_readback proofs.C04_locations proofs.C04_cuwps proofs.C04_reload proofs.C04_reload_locs proofs.C04_reload_cuwps proofs.C04_switches proofs.C04_wavs model.ChkIo gen.GenConsts proofs.C07_triggers proofs.C07_slots model.RichIo proofs.C08_proofs proofs.C09_proofs proofs.Save_strings proofs.Save_refs gen.GenTrig spec.SpecTrig gen.GenFlags gen.GenConsts.
 Import ListNotations.
 Local Open Scope N_scope.
 
@@ -286,3 +286,22 @@ Theorem C04_a_location_number_resolves_to_the_authored_location_after_reload :
                                l_idx := Some i; l_elev := l_elev k0; l_oid := 0%N |}.
 Proof. exact location_number_resolves_after_reload. Qed.
 Print Assumptions C04_a_location_number_resolves_to_the_authored_location_after_reload.
+
+(* END TO END for a unit-property argument: the number a save writes for a set c is resolved, by the context a later load of the
+   saved map builds, to a set with properties equal to c's, carrying that number *)
+Theorem C04_a_unit_property_number_resolves_to_equal_properties_after_reload :
+  forall wd r d' cx' cs up cx c i v slot,
+    save wd r = Ok d' -> decode_context d' = Ok cx' ->
+    filter (named "UPRP") r = [RUprp cs] -> rebuild_uprp r = Ok up -> cx_cuwps cx = up ->
+    NoDup (map fst (cby_idx cs)) ->
+    (forall s, In s r -> named "UPRP" s = true -> exists cs0, s = RUprp cs0) ->
+    (forall x, In x up -> length (c_vs x) = 6%nat /\ length (c_vu x) = 7%nat /\ length (c_flags x) = 5%nat) ->
+    id_by_cuwp cx c = Ok i -> (1 <= i)%N ->
+    uprp_encode up = Ok v -> nth_error (vlist "_cuwp_slots" v) (N.to_nat (i - 1)) = Some slot -> cuwp_is_unused slot = false ->
+    exists k,
+      rcuwp_eqb c k = true /\
+      cuwp_by_id cx' i = Some {| c_hp := c_hp k; c_sh := c_sh k; c_en := c_en k; c_res := c_res k; c_hang := c_hang k;
+                                 c_flags := c_flags k; c_vs := c_vs k; c_vu := c_vu k; c_unk := c_unk k; c_pad := c_pad k;
+                                 c_idx := Some i |}.
+Proof. exact cuwp_number_resolves_after_reload. Qed.
+Print Assumptions C04_a_unit_property_number_resolves_to_equal_properties_after_reload.
